@@ -54,6 +54,8 @@ CHECKS = {
             'text': 'Facet: Kani proves that DateTime equality and ordering (through ScalarCow) are chronological for two instants within +-100000 s of a base date, each displayed in any whole-hour offset -12..+14. strftime directive semantics and parse/print round-trips are not covered yet (see DESIGN.md).'},
     'C13': {'engine': 'E2-mirsym', 'technique': T_MIR, 'note': N_MIR + '; strings are lists of symbolic code points (byte lengths derived from utf8_len); one grapheme per code point (no combining marks)',
             'text': 'Facets built: real MIR of SliceFilter::evaluate + canonicalize_slice and TruncateFilter::evaluate on strings of 0..3 (quick) / 0..4 (thorough) symbolic Unicode characters with every i64 offset/length and symbolic ellipsis: the character-level reference result for every argument value, no panic. The other string filters and the chain-composition law are not covered yet. One known finding (truncate decides by byte length) is recorded: the repository suite pins that behaviour.'},
+    'C02': {'engine': 'E2-mirsym', 'technique': T_MIR, 'note': N_MIR + '; obligations borrowed from C05/C07/C13/C15 keep their stubs; only their panic roles count here',
+            'text': 'Totality facets (panic-freedom, no division by zero, no out-of-range index, no split character) of the kernels that index, slice, divide or loop: cycle parsing + position arithmetic, integer ranges and loop attributes, iter_array, For/TableRow::render_to (symbolic cols incl. 0), augmented_get (every i64 index), slice and truncate on symbolic Unicode strings, plus/minus/times/divided_by/modulo/abs. Filters not listed (other string filters, html/url, date, sort, jekyll/shopify/extra) and the valid-UTF-8 clause are not covered.'},
 }
 
 NOT_BUILT = 'not claimed yet: obligations for this property are not built in this revision (see DESIGN.md §4)'
@@ -61,5 +63,5 @@ NOT_APPLICABLE = {
     'C09': 'quantifies over histories of whole parse+render calls; needs the pest parser and HashMap-backed registers inside the solver (measured out of reach) or a frame condition that is a typing fact, not a solver query (DESIGN.md §5)',
     'C20': 'quantifies over thread schedules; Kani does not support concurrency and the MIR executor has no interleaving semantics (DESIGN.md §5)',
 }
-for _p in ['C02', 'C14', 'C16', 'C19']:
+for _p in ['C14', 'C16', 'C19']:
     NOT_APPLICABLE.setdefault(_p, NOT_BUILT)
